@@ -228,7 +228,8 @@ fn c03_reverse_traffic_with_random_failures_keeps_explicit_partition() {
     kani::cover!(changed, "the healthy direction failed at random");
 }
 }
-// @verif id=C03 tier=thorough role=send_step timeout=2400 mem=16 desc=(Explicit,Healthy),send-b->a,rates=0.5/0.5(symbolic-coin)
+// (not shipped: no verdict in 40 min - the Bernoulli comparison with p = 0.5 keeps both coin outcomes and the
+// float latency arithmetic symbolic at once) C03 tier=thorough role=send_step desc=(Explicit,Healthy),send-b->a,rates=0.5/0.5(symbolic-coin)
 crate::verif_proof! { unwind = 4;
 #[kani::stub(std::collections::VecDeque::remove, crate::verif_common::vecdeque_remove_stub)]
 #[kani::stub(std::collections::VecDeque::swap_remove_back, crate::verif_common::vecdeque_swap_remove_back_stub)]
